@@ -547,6 +547,40 @@ func suiteSearch(h *H) {
 		}
 		run(seed, sh, sums, target, honest, tag)
 	}
+	// (c0) many blocks: more than 2^16 (and more than 2^17) blocks in one signature, as a small block length
+	// on a moderately large file or gokrazy's own layout on a file beyond 4 GiB gives; identical and lightly
+	// edited targets. An identical file must cost no literal byte wherever in the file the block lies.
+	for i := 0; i < h.n(2, 10); i++ {
+		seed := int32(h.rng.Uint32())
+		bl := h.pick(16, 24, 32)
+		nblocks := h.pick(65537, 66000, 70001, 140000)
+		basis := h.bytes(bl*nblocks - h.rng.Intn(bl))
+		sh, sums := refSums(seed, basis, bl, 16)
+		target := basis
+		kind := "identical"
+		if i%2 == 1 {
+			// two small edits, one of them beyond block 65536
+			target = append([]byte{}, basis...)
+			target[100] ^= 1
+			target[len(target)-1000] ^= 1
+			kind = "two-edits"
+		}
+		res := runSender(seed, sh, sums, target)
+		v := searchOracle(seed, sh, sums, target, res, basis)
+		lits := 0
+		hi := 0
+		for _, t := range res.toks {
+			lits += len(t.lit)
+			if t.lit == nil && t.ref >= 65536 {
+				hi++
+			}
+		}
+		if v == "" && kind == "two-edits" && lits > 4*bl+2 {
+			v = fmt.Sprintf("FAIL[C16] two one-byte edits in a file of %d blocks cost %d literal bytes (block length %d)", nblocks, lits, bl)
+		}
+		h.emit(fmt.Sprintf("!search-manyblocks seed=%d %s bl=%d blocks=%d tokens=%d literal=%d refs-beyond-65535=%d", h.seed, kind, bl, len(sums), len(res.toks), lits, hi), res.outcome, v, true)
+		h.stat("search.manyblocks")
+	}
 	// (c) large, implementation-level oracle only: windows of 256 KiB crossed several times
 	for i := 0; i < h.n(6, 120); i++ {
 		seed := int32(h.rng.Uint32())
